@@ -315,6 +315,7 @@ func targets() []target {
 		{"mx.One", gen(mk("mx.One"))},
 		{"mx.ChainL", gen(mk("mx.ChainL"))},
 		{"mx.Anys", gen(mk("mx.Anys"))},
+		{"mx.Enums", gen(mk("mx.Enums"))}, // aliases, out-of-order numbers, same-named enums with different number sets
 		{"B", gen(&testpb.B{})}, // one string field: long strings are reached through periodic streams, see below
 	}
 }
@@ -558,6 +559,7 @@ func TestC18(t *testing.T) {
 		base string
 		pos  []int
 		w    []uint64
+		hor  int // horizon in words (0: the tier's default)
 	}
 	var mu sync.Mutex
 	var termination []string
@@ -585,7 +587,7 @@ func TestC18(t *testing.T) {
 								for rot := 0; rot < 4; rot++ {
 									name := fmt.Sprintf("p:%x,%x,%x,%x", pat[rot%4], pat[(rot+1)%4], pat[(rot+2)%4], pat[(rot+3)%4])
 									for p := 0; p < P; p++ {
-										if !emit(job{tg, os, name, []int{p}, []uint64{0}}) {
+										if !emit(job{tg, os, name, []int{p}, []uint64{0}, 512}) {
 											return
 										}
 									}
@@ -600,12 +602,12 @@ func TestC18(t *testing.T) {
 						if w1 == w2 {
 							continue
 						}
-						if !emit(job{tg, os, fmt.Sprintf("p:%x,%x", w1, w2), nil, nil}) {
+						if !emit(job{tg, os, fmt.Sprintf("p:%x,%x", w1, w2), nil, nil, 0}) {
 							return
 						}
 						if h.Thorough() {
 							for _, w3 := range devWords {
-								if !emit(job{tg, os, fmt.Sprintf("p:%x,%x,%x", w1, w2, w3), nil, nil}) {
+								if !emit(job{tg, os, fmt.Sprintf("p:%x,%x,%x", w1, w2, w3), nil, nil, 0}) {
 									return
 								}
 							}
@@ -613,7 +615,7 @@ func TestC18(t *testing.T) {
 					}
 				}
 				for _, bn := range baseOrder {
-					if !emit(job{tg, os, bn, nil, nil}) {
+					if !emit(job{tg, os, bn, nil, nil, 0}) {
 						return
 					}
 					for p := 0; p < P; p++ {
@@ -621,7 +623,7 @@ func TestC18(t *testing.T) {
 							if w == bases[bn] {
 								continue
 							}
-							if !emit(job{tg, os, bn, []int{p}, []uint64{w}}) {
+							if !emit(job{tg, os, bn, []int{p}, []uint64{w}, 0}) {
 								return
 							}
 						}
@@ -633,7 +635,7 @@ func TestC18(t *testing.T) {
 							for p2 := p1 + 1; p2 < 48; p2++ {
 								for _, w1 := range ws {
 									for _, w2 := range ws {
-										if !emit(job{tg, os, bn, []int{p1, p2}, []uint64{w1, w2}}) {
+										if !emit(job{tg, os, bn, []int{p1, p2}, []uint64{w1, w2}, 0}) {
 											return
 										}
 									}
@@ -646,9 +648,13 @@ func TestC18(t *testing.T) {
 		}
 	}, func(it interface{}) {
 		j := it.(job)
-		c := c18case{Type: j.tg.name, Options: j.os.name, Base: j.base, Pos: j.pos, Words: j.w, Horizon: H}
+		hor := H
+		if j.hor > 0 {
+			hor = j.hor
+		}
+		c := c18case{Type: j.tg.name, Options: j.os.name, Base: j.base, Pos: j.pos, Words: j.w, Horizon: hor}
 		total.Add(1)
-		switch runOne(t, h, j.tg, j.os, c, mkStream(basePattern(j.base), H, j.pos, j.w)) {
+		switch runOne(t, h, j.tg, j.os, c, mkStream(basePattern(j.base), hor, j.pos, j.w)) {
 		case beyondHorizon:
 			beyond.Add(1)
 			// branching-factor-1 recursion and the minimal stream must terminate well inside the horizon
